@@ -93,3 +93,22 @@ def validate_traces(cases, stats, threads=8):
         print('TRACE-VALIDATION-MISMATCH: %s' % json.dumps(m, default=repr)[:900])
     stats.extra['trace_validation_mismatches'] += len(mism)
     return agree
+
+
+def validate_multi_traces(cases, stats):
+    """cases: list of (makers, extra_opts, threads).  Sequential (each spawns its own subprocess)."""
+    from . import realnet
+    if os.environ.get('VERIF_NO_REALNET'):
+        return 0
+    agree = 0
+    for makers, opts, threads in cases:
+        ok, info = realnet.validate_multi(makers, opts, threads)
+        if not ok:
+            ok, info = realnet.validate_multi(makers, opts, threads)
+        stats.extra['traces_replayed_on_real_tcp'] += 1
+        if ok:
+            agree += 1
+        else:
+            stats.extra['trace_validation_mismatches'] += 1
+            print('TRACE-VALIDATION-MISMATCH: %s' % json.dumps(info, default=repr)[:900])
+    return agree
